@@ -841,6 +841,8 @@ int main(int argc, char **argv) {
             O << ",\"callee\":";
             if (Callee) O << jstr(Callee->getName());
             else O << "null";
+            if (Callee && !Callee->isIntrinsic() && Callee->getFunctionType() != CB->getFunctionType())
+              O << ",\"proto_mismatch\":" << jstr(tystr(CB->getFunctionType()) + " called, defined as " + tystr(Callee->getFunctionType()));
             O << ",\"callee_op\":" << vref(CB->getCalledOperand(), C);
             O << ",\"nargs\":" << CB->arg_size();
             if (auto *II = dyn_cast<IntrinsicInst>(&I))
